@@ -171,7 +171,9 @@ class Patches:
         self.saved = []
 
 
-TOOLS = {'i': 'ip', 'n': 'netstat', 'x': None}
+TOOLS = {'i': ('ip',), 'n': ('netstat',), 'x': (), 'b': ('ip', 'netstat')}   # which() finds these
+ARGV = {'i': ['ip', 'route'], 'b': ['ip', 'route'], 'n': ['netstat', '-rn']}
+MODEL_TOOL = {'i': 'i', 'n': 'n', 'x': 'x', 'b': 'i'}
 
 
 def run_server(tool, output):
@@ -199,7 +201,7 @@ def run_server(tool, output):
     try:
         p.set(ssnet, 'set_non_blocking_io', lambda fd: None)
         p.set(server.ssubprocess, 'Popen', FakePopen)
-        p.set(server, 'which', lambda name, *a: ('/sbin/' + name) if name == TOOLS[tool] else None)
+        p.set(server, 'which', lambda name, *a: ('/sbin/' + name) if name in TOOLS[tool] else None)
         p.set(server, 'io', fio)
         p.set(server, 'Mux', RecMux)
         p.set(server, 'Hostwatch', StopHostwatch)
@@ -237,7 +239,7 @@ def line_real(tool, line):
     old_stderr = sys.stderr
     try:
         p.set(server.ssubprocess, 'Popen', FakePopen)
-        p.set(server, 'which', lambda name, *a: ('/sbin/' + name) if name == TOOLS[tool] else None)
+        p.set(server, 'which', lambda name, *a: ('/sbin/' + name) if name in TOOLS[tool] else None)
         sys.stderr = io.StringIO()
         FakePopen.output = line
         try:
@@ -249,7 +251,7 @@ def line_real(tool, line):
         if tool == 'x':
             return 'skip'
         FakePopen.output = line
-        extractor = server._route_iproute if tool == 'i' else server._route_netstat
+        extractor = server._route_iproute if tool in 'ib' else server._route_netstat
         raw = server._list_routes(['x'], extractor)
         if raw:
             return 'filt %d,%s,%d' % raw[0]
@@ -660,7 +662,7 @@ def table_case(ctx, tool, lines, intents, flags, perline=True, label='table'):
     ssnet, client, server, helpers = _mods()
     output = b''.join(lines)
     log = CaseLog(label)
-    log.add('begin ' + tool, 'ok')
+    log.add('begin ' + MODEL_TOOL[tool], 'ok')
     raised_line = None
     if perline:
         for ln, it in zip(lines, intents):
@@ -679,6 +681,9 @@ def table_case(ctx, tool, lines, intents, flags, perline=True, label='table'):
         for ln in lines:
             log.ins.append('q ' + hexb(ln))
     status, wire = run_server(tool, output)
+    if FakePopen.calls[:1] != ([ARGV[tool]] if tool != 'x' else []):
+        ctx.violation('C17:list_routes:wrong-tool', case=dict(stream='tool', tool=tool), expected='argv %r' % ARGV.get(tool),
+                      observed='Popen calls %r' % FakePopen.calls[:3], kind='input')
     exp = [e for e in (expected_of(it) for it in intents) if e is not None] if tool != 'x' else []
     strict = all(it[0] != 'lenient' for it in intents)
     known_gap = [expected_of(it) for it in intents if it[0] == 'barehost' and expected_of(it)]
@@ -713,7 +718,7 @@ def table_case(ctx, tool, lines, intents, flags, perline=True, label='table'):
             p = Patches()
             try:
                 p.set(server.ssubprocess, 'Popen', FakePopen)
-                p.set(server, 'which', lambda nm, *a: ('/sbin/' + nm) if nm == TOOLS[tool] else None)
+                p.set(server, 'which', lambda nm, *a: ('/sbin/' + nm) if nm in TOOLS[tool] else None)
                 rts = list(server.list_routes())
             finally:
                 p.restore()
@@ -865,7 +870,7 @@ def unit_cases(ctx):
             '1.2.3.4\n\n', '1.2.3.4 ', ' 1.2.3.4', '1.2.3.4/08', '1.2.3.4/00000000000000000000000000000000024',
             '99999999999999999999999', '0', '255.255.255.255/32', '1.2.3.4/' + '1' * 4300, '1.2.3.4/' + '1' * 4301,
             '1.2.3.4/' + '0' * 4301, 'default/0', '::1', '1.2.3.4/2/4', '0x10.1.1.1', '1.2.3.4/-1', '1.2.3.4/+1', '٣.1.1.1'[1:]]
-    for _ in range(ctx.scale(300, 4000)):
+    for _ in range(ctx.scale(300, 30000)):
         k = rng.randrange(1, 6)
         parts = []
         for _j in range(k):
@@ -883,7 +888,7 @@ def unit_cases(ctx):
     ints = ['8', '+8', '-8', '1_6', '_1', '1_', '1__2', '008', ' 8', '8 ', '\t8\n', '', '+', '-', '0_0', '+-8', '0x8', '-0', '8.0', '1e3',
             '\x1c8\x1f', '8\x1c', '1 2', '1_2_3', '1' * 4300, '1' * 4301, '0' * 4301, '-' + '1' * 4300, '1_' * 4299 + '1',
             '1_' * 4300 + '1', '12a', 'a12', '--1', '+_1', '1\x000']
-    for _ in range(ctx.scale(300, 4000)):
+    for _ in range(ctx.scale(300, 20000)):
         n = rng.randrange(0, 7)
         ints.append(''.join(rng.choice('0123456789_+- \t\x1c') for _ in range(n)))
     for s in ints:
@@ -953,8 +958,8 @@ def gen_cases(ctx):
         logs.append(table_case(ctx, 'n', [good, ln, good], [('route', '172.16.0.0', 12), ('omit',), ('route', '172.16.0.0', 12)], '101'))
 
     # random tables
-    for i in range(ctx.scale(120, 1500)):
-        tool = rng.choice('iiinnn' if i % 50 else 'x')
+    for i in range(ctx.scale(120, 8000)):
+        tool = rng.choice('iiinnnb' if i % 50 else 'x')
         n = rng.choice([0, 1, 2, 3, 5, 8, 13, 30, rng.randrange(0, 60)])
         gen = iproute_line if tool != 'n' else netstat_line
         pairs = [gen(rng) for _ in range(n)]
